@@ -268,6 +268,8 @@ fn families(thorough: bool) -> Vec<Family> {
         max_wide: wide,
         wide_no_atoms: true,
         sym_reduce: true,
+        stages: vec![],
+        assert_split: None,
     };
     let all = [AK::Connect, AK::AssertZero, AK::AssertBool];
     let mut v = vec![
